@@ -208,3 +208,19 @@ func planC10(tier string, seed uint64) *Plan {
 	p.Phases = []Phase{{Name: "paging", Groups: randomPlan("c10", seed, swarmCfgs(seed, n), jobs, count, "stub")}}
 	return p
 }
+
+func init() { plans["C11"] = planC11 }
+
+func planC11(tier string, seed uint64) *Plan {
+	p := &Plan{
+		Level: "exploration",
+		Rule: "seeded feeds of 0-4 sources (actors by URL or handle with paged outboxes of Create activities, bare collections, unresolvable sources, actors without outbox; timestamps sorted, unsorted, equal, missing) x seeded request sequences (sizes 0-6, occasional start offsets, the same position asked again sequentially and from two concurrent tasks); outputs compared with a reference merge (latest head first, ties to the first-listed source) over the C10 reference of each source. Non-trivial = every run; distinct = distinct (world tape, event order) fingerprint.",
+		Assumptions: []string{"activities carry their own published equal to their object's (the statement does not define an activity's timestamp otherwise)"},
+	}
+	n, jobs, count := 16, 2, 150
+	if tier == "thorough" {
+		n, jobs, count = 32, 4, 2500
+	}
+	p.Phases = []Phase{{Name: "feeds", Groups: randomPlan("c11", seed, swarmCfgs(seed, n), jobs, count, "stub")}}
+	return p
+}
